@@ -56,7 +56,8 @@ def run_check(prop, tier, verdict):
                 errs[name] = e[-5000:]
                 with open(bd.file("err_" + name.replace("+", "p") + ".txt"), "w") as f:
                     f.write(e[-5000:])
-            bd.mark("xstd-" + tier)
+            if not errs:
+                bd.mark("xstd-" + tier)      # failures are never cached
         else:
             for b in usable:
                 p = bd.file("err_" + bname(b).replace("+", "p") + ".txt")
